@@ -719,7 +719,6 @@ class XMLResource(XMLResourceLoader):
                     if level < path_depth:
                         if ancestors is not None:
                             ancestors.pop()
-                        continue
                     elif level == path_depth:
                         if select_all or node in selector.iter_select(self):
                             yield node
